@@ -454,6 +454,14 @@ def _generate_once(r, filt, profile):
         sm = model_has_sm(knobs['gyro_model']) or model_has_sm(knobs['accel_model'])
         knobs['increments_given'] = bool(sm or r.random() < 0.6)
         knobs['nominal'] = ['computed', 'reference'][int(r.integers(2))]
+        if profile == 'est' and r.random() < 0.1 and knobs['gyro_model'] is not None:
+            # ONE EstimationModel object handed in as both gyro_model and accel_model
+            knobs['accel_model'] = knobs['gyro_model']
+            knobs['same_model_object'] = True
+        if profile == 'est' and r.random() < 0.12:
+            # an earlier call in the same process on the same data with other noise
+            # densities (a noise sweep) must not influence this one
+            knobs['noise_sweep_before'] = float(10 ** r.uniform(0.5, 1.5))
         if 'increments_dropout' in enabled and knobs['increments_given'] and len(imu) > 8:
             # the increments table handed to the filter has lost a run of rows (IMU log
             # dropout) although the trajectory covers the interval
@@ -511,9 +519,13 @@ def materialise(sc, fence_only=False, fresh_spies=True):
             data.insert(0, 'quality', 1.0)
             data['n_sat'] = 9.0
         if s.get('vertical_scramble') and s['cls'] == 'NedVelocity':
-            # metamorphic twin: the measured vertical velocity replaced by other numbers
+            # metamorphic twin: the measured vertical velocity replaced by other numbers,
+            # every other sample by "not measured" (NaN)
             data = data.copy()
-            data['VD'] = data['VD'].to_numpy() * -3.0 + 11.0
+            vd = data['VD'].to_numpy() * -3.0 + 11.0
+            if s.get('vertical_scramble') == 'nan':
+                vd[::2] = np.nan
+            data['VD'] = vd
         cls = spy_class(s['cls'])
         if s['cls'] == 'BodyVelocity':
             obj = cls(data, s['sd'] * scale)
@@ -522,6 +534,10 @@ def materialise(sc, fence_only=False, fresh_spies=True):
                       None if s['lever'] is None else np.asarray(s['lever'], dtype=float))
         obj.spy_delivery = delivery
         meas.append(obj)
+    if kn.get('state_labels') == 'permuted':
+        # the caller's Pva / Trajectory with the labels in another order
+        perm = list(init.index[3:]) + list(init.index[:3])
+        init = init[perm]
     out = dict(in_fence=ok, delivery=delivery, increments=inc, increments_clean=inc_clean,
                reference=reference, initial=init, measurements=meas,
                t_start=float(stamps[0]), t_end=float(stamps[-1]), with_altitude=wa)
@@ -530,6 +546,10 @@ def materialise(sc, fence_only=False, fresh_spies=True):
         k = int(kn.get('traj_subsample', 1))
         computed = computed.iloc[::k]
         ref = reference.iloc[::k]
+        if kn.get('state_labels') == 'permuted':
+            cols = list(computed.columns[3:]) + list(computed.columns[:3])
+            computed = computed[cols]
+            ref = ref[cols]
         out['computed'] = computed
         drop = [i for i in kn.get('increments_dropout') or [] if 0 <= i < len(inc)]
         out['increments_passed'] = inc.drop(inc.index[drop]) if drop else inc
@@ -560,6 +580,8 @@ def filter_kwargs(sc, m):
     if not kn.get('models_omitted'):
         kw['gyro_model'] = build_model(scaled_model_params(kn['gyro_model'], scale))
         kw['accel_model'] = build_model(scaled_model_params(kn['accel_model'], scale))
+        if kn.get('same_model_object'):
+            kw['accel_model'] = kw['gyro_model']
     marg = kn['measurements_arg']
     if marg == 'list':
         kw['measurements'] = list(m['measurements'])
